@@ -25,6 +25,8 @@ def one(name):
         meta = json.load(open(os.path.join(d, 'meta.json')))
     except Exception:
         return name, 'no-meta', []
+    if meta.get('noop_on_head'):
+        return name, 'no-op on the repaired tree (see meta.json)', []
     ids = [c for c in meta.get('detected_by', []) if only_check in (None, c)]
     if not ids:
         return name, 'not-selected', []
